@@ -138,9 +138,14 @@ claimed["C06"] = (
     "of 1-8 type-erased members run through the real macro-generated tuple impls, BitAnd tree, JoinIter / JoinLendIter / "
     "MaybeJoin / AntiStorage / Drain / RestrictedStorage / ChangeSet impls and hibitset iteration over sparse masks "
     "straddling 64 / 4096 / 262144, on all 16 storages, interleaved with direct operations; items, events, destroyed "
-    "values and the storage contents afterwards must equal the specification's. Partial: that each item equals a direct "
-    "lookup and that a mutation lands on that entity only is shown by the correspondence (every join is followed by "
-    "Mask/Get observations), not yet by a theorem; hibitset's layered iteration is modelled as ascending set iteration.",
+    "values and the storage contents afterwards must equal the specification's. Further theorems: the join on real "
+    "storages of any kind refines the join on the plain maps they represent (same items, related final states); on those "
+    "maps every storage member hands out, for every visited index, the value a direct lookup returns, a mutation through "
+    "an item lands exactly once on each visited cell of that storage and on no other cell, storages that no member owns "
+    "are not changed at all, a drain removes exactly the visited components; a join with registered members is never "
+    "stuck (no unchecked access to an absent slot) and adds no member to any mask - so the never-stuck and purge "
+    "invariants of C04/C05/C08 cover histories with joins. Partial: hibitset's layered iteration is modelled as ascending "
+    "set iteration (exercised by the tie with boundary-straddling masks).",
     "5.C06")
 claimed["C07"] = (
     "Theorems: in the model the parallel join is the sequential join - same items, same final storages - for every member "
@@ -149,9 +154,13 @@ claimed["C07"] = (
     "over sparse and boundary-straddling masks with shared and mutable members (all DistinctStorage kinds), restricted "
     "members and optional members; the rows delivered by the workers (sorted by index) and the storage contents "
     "afterwards must equal the specification's; independently of the model, a parallel join that follows the same "
-    "read-only join run sequentially must deliver the same rows. Partial: the scheduler's split tree (hibitset's "
-    "BitProducer, rayon's bridge) is outside the model - the theorem says what any correct split must deliver, the "
-    "correspondence samples the real splits.", "5.C07")
+    "read-only join run sequentially must deliver the same rows. Further theorems (on the maps the storages represent, "
+    "to which the real join is proved to refine): however the index space is split and in whatever order the pieces are "
+    "processed (any permutation of the keys), the storages end up cell for cell the same, every index is delivered "
+    "exactly once and every storage member hands out the same component for each index; the visit of one index touches "
+    "no cell of another index (so no component is handed to two workers). Partial: workers are modelled as an arbitrary "
+    "sequential order of whole visits; hibitset's BitProducer, rayon's bridge and truly simultaneous execution are "
+    "outside the model and sampled by the correspondence.", "5.C07")
 claimed["C13"] = (
     "Theorems: a restricted view is a join member exactly where the storage is; reading through an item is the guarded "
     "read of the item's own index (the primitive a direct join uses); item types without get_other report no lookups; "
@@ -160,8 +169,10 @@ claimed["C13"] = (
     "map. Tie: restrict() / restrict_mut() / shared reference to restrict_mut() joined sequentially, lending and in "
     "parallel on all 16 storages; per item get, get_mut on a caller-chosen subset (i mod m = r), get_other / "
     "get_other_mut of live, dead, stale (reused index) and component-less handles; readers on the tracked storages "
-    "observe the events; all compared with the specification. Partial: 'a Modified event only for the items fetched "
-    "mutably' is decided by the correspondence on the event streams, not yet by a theorem.", "5.C13")
+    "observe the events; all compared with the specification. Further theorems (on the maps, via the refinement): of the "
+    "visited cells exactly those the caller chose to fetch mutably change, every other cell keeps its value; read-only "
+    "restrictions change nothing. Partial: 'a Modified event only for the items fetched mutably' is decided by the "
+    "correspondence on the event streams (the event channel is not part of the map-level theorems).", "5.C13")
 claimed["C16"] = (
     "Theorems: for every sequence of (entity, amount) pairs the change set holds, per index, the combination of its "
     "amounts in arrival order (a non-commutative combination, so the order is observable) and nothing for an index that "
